@@ -1,7 +1,10 @@
 import ICal.Driver.Text
+import ICal.Driver.Fold
+import ICal.Driver.StartEnd
+import ICal.Driver.Codec
 open ICal.Driver
 
-def handlers : List (String → List String → Option String) := [handleText]
+def handlers : List (String → List String → Option String) := [handleText, handleFold, handleStartEnd, handleCodec]
 
 def step (line : String) : String :=
   let l := line.dropRightWhile (fun c => c == (Char.ofNat 10) || c == (Char.ofNat 13))
